@@ -144,6 +144,13 @@ class Chan:
             except (ssl.SSLError, OSError):
                 return
 
+    def abort(self):
+        """called from another thread: wake a blocked send/recv; the owning thread closes the descriptor"""
+        try:
+            self.sock.shutdown(socket.SHUT_RDWR)
+        except OSError:
+            pass
+
     def close(self, rst=False):
         try:
             if rst:
@@ -245,6 +252,7 @@ class PeerCase:
                 if not reactions:
                     continue              # nothing scripted: stay silent
                 r = reactions.pop(0)
+                st["ri"] = st.get("ri", -1) + 1
                 self._react(st, r, line)
                 if r.get("starttls"):
                     slog["raw_mark"] = len(ch.raw_in)
@@ -291,7 +299,7 @@ class PeerCase:
             d = st.get("dstate")
             if d and d.get("chan") is not None:
                 d["aborted"] = True
-                d["chan"].close()
+                d["chan"].abort()
             if st["data_listener"] is not None:
                 try:
                     st["data_listener"].close()
@@ -335,13 +343,20 @@ class PeerCase:
 
     def _react(self, st, r, line):
         slog = st["slog"]
+        if line is not None and not r.get("abort_data") and not r.get("wait_data_done") and not r.get("during_transfer"):
+            # the client is sequential: a new command (other than ABOR) means the previous transfer call has returned,
+            # i.e. the client has closed its data connection; let the data thread finish (and write what it held back)
+            d = st.get("dstate")
+            t0 = time.time()
+            while d and not d.get("done") and time.time() - t0 < 3.0:
+                time.sleep(0.001)
         if r.get("abort_data"):          # ABOR: stop a transfer in progress before answering
             with st["lock"]:
                 d = st.get("dstate")
                 if d and not d.get("done"):
                     d["aborted"] = True
                     if d.get("chan") is not None:
-                        d["chan"].close()
+                        d["chan"].abort()
         if r.get("drop_pending"):
             st["pending"] = []
         if r.get("wait_data_done"):      # the transfer had completed from the peer's side before this command is answered
@@ -362,7 +377,7 @@ class PeerCase:
             early, late = r["now"][:1], r["now"][1:]
         self._write_items(st, early, r.get("pace"))
         if data:
-            d = dict(spec=data, done=False, aborted=False, chan=None, late=late, rec=dict(kind=data["dir"], bytes=b"",
+            d = dict(spec=data, done=False, aborted=False, chan=None, late=late, rec=dict(kind=data["dir"], ri=st.get("ri", -1), bytes=b"",
                      arrived=False, tls=None, reused=None, eof=None, first_raw=b""))
             slog["data"].append(d["rec"])
             d["listener"] = st["data_listener"]
@@ -408,6 +423,12 @@ class PeerCase:
 
     # ------------------------------------------------------------------ the data connection of one transfer
     def _data(self, st, d):
+        try:
+            self._data_inner(st, d)
+        finally:
+            d["done"] = True
+
+    def _data_inner(self, st, d):
         spec, rec, slog = d["spec"], d["rec"], st["slog"]
         try:
             sock = None
@@ -474,6 +495,9 @@ class PeerCase:
                         time.sleep(spec["pace_s"])
                 rec["sent_all"] = ok and not d["aborted"]
                 d["sent_all"] = rec["sent_all"]
+                if d["aborted"]:
+                    ch.close()
+                    rec["eof"] = "aborted"
                 if not d["aborted"]:
                     if spec.get("end", "E") == "E":
                         if ch.tls is not None:
